@@ -39,13 +39,23 @@ def gen_case(rng):
     scn = P.gen_scenario(rng)
     case = {"seed": rng.getrandbits(32), "prior": rng.random() < 0.6, "switch": rng.random() < 0.15,
             "local_fault": rng.choice([None, None, None, rng.randint(1, 120)]),
-            "path_fault": rng.random() < 0.25}
+            "path_fault": rng.random() < 0.25,
+            # the wipe protection at its default ratios (0.4): cleaning may be refused, completeness must still hold
+            "wipe_default": rng.random() < 0.5,
+            # upstream drops the preferred compression variant while its package set changes
+            "variant_drop": rng.random() < 0.2}
+    if case["variant_drop"]:
+        case["prior"] = True
+        for r in scn.repos:
+            for c in r["version"]["codenames"].values():
+                c["compressions"] = ["xz", "gz"]
     return scn, case
 
 
 def run_case(rep, scn, case, sb: Path, tag):
     rng = random.Random(case["seed"])
     base = sb / tag
+    scn.wipe_default = bool(case.get("wipe_default"))
     files = R.files_of(scn)
     found = False
     if case["prior"]:
@@ -54,7 +64,12 @@ def run_case(rep, scn, case, sb: Path, tag):
     scn2 = scn
     if case["prior"]:
         scn2 = P.Scenario([dict(r, version=P.gen_version(rng, serial=2, prev=r["version"])) for r in scn.repos],
-                          nthreads=scn.nthreads, autoclean=scn.autoclean, retries=scn.retries)
+                          nthreads=scn.nthreads, autoclean=scn.autoclean, retries=scn.retries,
+                          wipe_default=bool(case.get("wipe_default")))
+        if case.get("variant_drop"):
+            for r in scn2.repos:
+                for c in r["version"]["codenames"].values():
+                    c["compressions"] = [rng.choice(["gz", "bz2"])]
     files2 = R.files_of(scn2)
     served = mutate_mid_run(rng, scn2, files2) if case["switch"] else files2
     plan = R.gen_fault_plan(rng, scn2, served)
